@@ -6,6 +6,7 @@ Proof:  Molli.Props.C12 over Molli.Model.Join / Molli.Model.Geom: join_atoms_bon
         join_bond_length, join_bond_direction, join_bond_same_sense, join_fragment_faces, optimize_keeps_bond,
         join_deterministic (+ join_hidden_state_counterexample: D25), join_sources_untouched,
         iterated_join_index, iterated_join_index_sorted (+ iterated_join_unsorted_counterexample: D26), assemble_atoms.
+        The whole command `molli combine` (molli_main) is tied to `assemble` product by product, each core with ITS OWN attachment indices.
 Tie:    random 3-D tree/ring fragments (attachment point on any atom, at any position of the atom list) through the real
         `Structure.join` and the real loop of `molli.scripts.combine._ml_assemble`:
         combinatorial part exact diff against the model (atoms, bonds with payload, charge, mult);
@@ -34,6 +35,7 @@ from harness.c11 import Batch, expect_flags
 ELEMENTS = ["C", "N", "O", "H", "F", "S", "Cl", "P", "Si", "Br"]
 BTYPES = ["Single", "Double", "Aromatic", "Triple"]
 NEWDATA = "Single/Unknown/1.0"
+AXES = [(1.0, 0.0, 0.0), (-1.0, 0.0, 0.0), (0.0, 1.0, 0.0), (0.0, -1.0, 0.0), (0.0, 0.0, 1.0), (0.0, 0.0, -1.0)]
 SPEC_KINDS = {"shape": "C12:join-wrong-atoms", "partA": "C12:join-distorts-first-fragment", "rigidB": "C12:join-distorts-second-fragment",
               "anchor": "C12:join-distorts-first-fragment", "len": "C12:join-wrong-bond-length", "dir": "C12:join-wrong-bond-direction"}
 
@@ -41,7 +43,7 @@ SPEC_KINDS = {"shape": "C12:join-wrong-atoms", "partA": "C12:join-distorts-first
 # ------------------------------------------------------------------------------------------
 # fragments
 # ------------------------------------------------------------------------------------------
-def gen_fragment(rng, name, n_aps=1, nmin=1, nmax=7, parallel_to=None):
+def gen_fragment(rng, name, n_aps=1, nmin=1, nmax=7, parallel_to=None, ap_labels=None):
     """JSON description of a random 3-D tree/ring fragment with `n_aps` attachment points.
     parallel_to = (vector, sign): place the (single) attachment point exactly along ±vector."""
     n = rng.range(nmin, nmax)
@@ -86,7 +88,7 @@ def gen_fragment(rng, name, n_aps=1, nmin=1, nmax=7, parallel_to=None):
     return {
         "name": name,
         "elements": [elements[o] for o in perm],
-        "labels": [f"{name}{'ap' if is_ap[o] else 'a'}{o}" for o in perm],
+        "labels": [(ap_labels[o - n] if (ap_labels and is_ap[o]) else f"{name}{'ap' if is_ap[o] else 'a'}{o}") for o in perm],
         "ap": [i for i, o in enumerate(perm) if is_ap[o]],
         "coords": [coords[o] for o in perm],
         "edges": [[inv[a], inv[b], t] for (a, b), t in zip(edges, btypes)],
@@ -110,12 +112,21 @@ def build(ml, fj):
     return m
 
 
+def _ename(enum_cls, v) -> str:
+    try:
+        return v.name
+    except AttributeError:      # IntEnum fields come back from a library as plain ints
+        return enum_cls(v).name
+
+
 def atom_tok(a) -> str:
-    return f"{a.element.name}/{a.label}/{a.atype.name}"
+    from molli.chem import Element, AtomType
+    return f"{_ename(Element, a.element)}/{a.label}/{_ename(AtomType, a.atype)}"
 
 
 def bond_tok(b) -> str:
-    return f"{b.btype.name}/{b.stereo.name}/{float(b.f_order)!r}"
+    from molli.chem import BondType, BondStereo
+    return f"{_ename(BondType, b.btype)}/{_ename(BondStereo, b.stereo)}/{float(b.f_order)!r}"
 
 
 def frag_tokens(m) -> str:
@@ -257,7 +268,7 @@ def join_case(ctx, B, ml, fa, fb, args, variants, sample=False):
     ctx.count("join.optimize_rotation=" + str(bool(args["opt"])))
 
     # ---------- hidden state ----------
-    if not np.array_equal(coords, np.array(res2.coords)) or canon(res) != canon(res2):
+    if not np.array_equal(coords, np.array(res2.coords), equal_nan=True) or canon(res) != canon(res2):
         dmax = float(np.abs(coords - np.array(res2.coords)).max()) if coords.shape == np.array(res2.coords).shape else float("nan")
         ctx.violation("C12:join-depends-on-hidden-rng-state",
                       f"two identical join calls under different numpy RNG states differ by {dmax:.3g} Å ({args['pose']} attachment vectors)", tag)
@@ -307,8 +318,13 @@ def join_case(ctx, B, ml, fa, fb, args, variants, sample=False):
     newbond = res.bonds[-1] if res.n_bonds else None
     d = args["dist"] if args["dist"] is not None else ((newbond.expected_length if newbond is not None else None) or 1.5)
     geo_ok = coords.shape == (nA + nB - 2, 3) and bool(np.all(np.isfinite(coords)))
-    if not geo_ok:
-        ctx.violation("C12:join-wrong-atoms", f"coordinate array has shape {coords.shape} / non-finite entries", tag)
+    if coords.shape == (nA + nB - 2, 3) and not np.all(np.isfinite(coords)):
+        bad = int(np.sum(~np.isfinite(coords).all(axis=1)))
+        ctx.violation("C12:join-nonfinite-coordinates",
+                      f"{bad} of {len(coords)} atoms of the product have NaN/inf coordinates ({args['pose']} attachment vectors, "
+                      f"A's attachment vector {(np.array(fa['coords'][i1]) - np.array(fa['coords'][n1])).tolist()})", tag)
+    elif not geo_ok:
+        ctx.violation("C12:join-wrong-atoms", f"coordinate array has shape {coords.shape}", tag)
     else:
         gotA, gotB = coords[:nA - 1], coords[nA - 1:]
         if not G.close(gotA, ca[keepA] - ca[n1], 1e-9):
@@ -468,6 +484,157 @@ def combine_case(ctx, B, ml, cb, core_j, aps, subs_j, variants, sample=False):
 
 
 # ------------------------------------------------------------------------------------------
+# the whole `molli combine` command: molli_main on core / substituent LIBRARIES
+# ------------------------------------------------------------------------------------------
+def expected_product_indexed(core_j, aps, subs_j):
+    """model-free reference of one product in canonical form (atom tokens in order, bonds as an unordered set of unordered
+    index pairs with payload, charge, mult): each join drops the attachment point and appends the substituent's other atoms."""
+    toks, pos = [], {}
+    frs = [core_j] + list(subs_j)
+    for fi, f in enumerate(frs):
+        for i, (el, lbl) in enumerate(zip(f["elements"], f["labels"])):
+            if i not in f["ap"]:
+                pos[(fi, i)] = len(toks)
+                toks.append(f"{el}/{lbl}/Regular")
+    bonds = []
+    for fi, f in enumerate(frs):
+        for a, b, t in f["edges"]:
+            if a not in f["ap"] and b not in f["ap"]:
+                x, y = pos[(fi, a)], pos[(fi, b)]
+                bonds.append(f"{min(x, y)}-{max(x, y)}:{t}/Unknown/1.0")
+    for si, (ap, sj) in enumerate(zip(aps, subs_j)):
+        x, y = pos[(0, neighbour_of(core_j, ap))], pos[(si + 1, neighbour_of(sj, sj["ap"][0]))]
+        bonds.append(f"{min(x, y)}-{max(x, y)}:{NEWDATA}")
+    q = core_j["charge"] + sum(sj["charge"] for sj in subs_j)
+    m = core_j["mult"] + sum(sj["mult"] - 1 for sj in subs_j)
+    return f"ok atoms={','.join(toks)} bonds={','.join(sorted(bonds))} charge={q} mult={m}"
+
+
+def combos_for_mode(mode, subs, k):
+    from itertools import permutations, combinations, combinations_with_replacement
+    if mode == "same":
+        return [tuple([sx] * k) for sx in subs]
+    if mode == "permutns":
+        return list(permutations(subs, k))
+    if mode == "combns":
+        return list(combinations(subs, k))
+    return list(combinations_with_replacement(subs, k))
+
+
+def main_case(ctx, B, ml, cb, variants, mode, label_form, case_no, sample=False):
+    """`molli combine cores.mlib -s subs.mlib -m <mode> [-a label …] -o out.mlib` through the real molli_main, on a core library
+    of several cores whose attachment points sit at DIFFERENT atom-list positions; every product of the output library is
+    compared with the model-free reference and with the model's iterated join for ITS core's attachment indices."""
+    import contextlib
+    import io
+    rng = ctx.rng
+    k = rng.range(1, 2) if mode != "combns" else rng.range(1, 2)
+    ncores = rng.range(2, 3)
+    nsubs = rng.range(max(2, k), 3)
+    # attachment-point labels: a shared label on every attachment point, or one label per attachment point (same set in every core)
+    if label_form == "shared-label":
+        aplabels = ["AP"] * k
+    else:
+        aplabels = [f"AP{j}" for j in range(k)]
+    cores = []
+    for _ in range(60):
+        cores = [gen_fragment(rng, f"K{case_no}c{ci}x", n_aps=k, nmin=max(2, k), nmax=6, ap_labels=aplabels) for ci in range(ncores)]
+        if len({tuple(sorted(c["ap"])) for c in cores}) > 1:
+            break                      # the cores' attachment points sit at different positions of the atom list
+    subs = [gen_fragment(rng, f"S{case_no}s{si}x", nmin=1, nmax=4) for si in range(nsubs)]
+    for c in cores:
+        c["name"] = c["name"].rstrip("x")
+    for sj in subs:
+        sj["name"] = sj["name"].rstrip("x")
+    # the attachment indices molli_main has to use for each core
+    argv_labels = []
+    if label_form == "none":
+        per_core_aps = [sorted(c["ap"]) for c in cores]
+    elif label_form == "shared-label":
+        argv_labels = ["AP"]
+        per_core_aps = [sorted(c["ap"]) for c in cores]          # yield_atoms_by_label: atom order
+    else:
+        order = rng.shuffle(list(range(k)))                     # labels given in any order
+        argv_labels = [f"AP{j}" for j in order]
+        per_core_aps = [[c["labels"].index(f"AP{j}") for j in order] for c in cores]
+    work = ctx.scratch / f"combine{case_no}"
+    work.mkdir(exist_ok=True)
+    cpath, spath, opath = work / "cores.mlib", work / "subs.mlib", work / "out.mlib"
+    for path, frs in ((cpath, cores), (spath, subs)):
+        lib = ml.MoleculeLibrary(str(path), readonly=False, overwrite=True)
+        with lib.writing():
+            for f in frs:
+                lib[f["name"]] = build(ml, f)
+    argv = [str(cpath), "-s", str(spath), "-m", mode, "-o", str(opath), "-n", "1", "--overwrite"]
+    for lbl in argv_labels:
+        argv += ["-a", lbl]
+    tag = {"op": "molli combine (molli_main)", "argv": argv[2:], "mode": mode, "attachment_labels": argv_labels,
+           "cores": cores, "subs": subs, "attachment_indices_per_core": per_core_aps}
+    ctx.count(f"main.mode={mode}")
+    ctx.count(f"main.labels={label_form}")
+    ctx.count(f"main.n_aps={k}")
+    err = None
+    try:
+        with contextlib.redirect_stdout(io.StringIO()), contextlib.redirect_stderr(io.StringIO()):
+            cb.molli_main(argv)
+    except BaseException as e:  # noqa: BLE001  (assert / SystemExit / anything: a valid command line must succeed)
+        if isinstance(e, KeyboardInterrupt):
+            raise
+        err = f"{type(e).__name__}: {e}"
+    products = {}
+    if opath.exists():
+        try:
+            out = ml.MoleculeLibrary(str(opath), readonly=True)
+            with out.reading():
+                for key in out.keys():
+                    products[key] = out[key]
+        except Exception as e:  # noqa: BLE001
+            err = err or f"output library unreadable: {type(e).__name__}: {e}"
+    # combinations are drawn in the order in which the substituent library lists its records
+    slib = ml.MoleculeLibrary(str(spath), readonly=True)
+    with slib.reading():
+        key_order = list(slib.keys())
+    subs_lib = sorted(subs, key=lambda sj: key_order.index(sj["name"]))
+    expected = {}
+    for c, aps in zip(cores, per_core_aps):
+        for combo in combos_for_mode(mode, subs_lib, k):
+            name = "_".join([c["name"]] + [sj["name"] for sj in combo])
+            expected[name] = (c, aps, list(combo))
+    if err is not None:
+        ctx.violation("C12:combine-main-wrong-product", f"`molli combine cores.mlib {' '.join(argv[1:])}` failed: {err[:200]} "
+                      f"({len(products)} of {len(expected)} products written)", tag)
+    elif set(products) != set(expected):
+        ctx.violation("C12:combine-main-wrong-product", f"output library has products {sorted(products)[:6]}…, expected {sorted(expected)[:6]}…", tag)
+    mv = "repaired" if variants["combine"] == "repaired" else "shipped"
+    for name, (c, aps, combo) in sorted(expected.items()):
+        prod = products.get(name)
+        ctx.case(["main", mode, label_form, c, aps, combo], nontrivial=True)
+        if prod is None:
+            continue
+        impl = canon(prod)
+        ref = expected_product_indexed(c, aps, combo)
+        if impl != ref:
+            left = [a.label for a in prod.atoms if "AttachmentPoint" in atom_tok(a)]
+            ctx.violation("C12:combine-main-wrong-product",
+                          f"product {name}: not core ∪ substituents joined at the core's own attachment indices {aps}"
+                          + (f"; attachment points {left} are still in the product" if left else ""), dict(tag, product=name))
+        core_m, subs_m = build(ml, c), [build(ml, sj) for sj in combo]
+        req = (f"combine {mv} {frag_tokens(core_m)} {len(aps)} {' '.join(map(str, aps))} {NEWDATA} {len(subs_m)} " +
+               " ".join(f"{frag_tokens(sm)} {sj['ap'][0]}" for sm, sj in zip(subs_m, combo)))
+
+        def cb_(line, out, impl=impl, name=name):
+            m = canon_model(out) if out.startswith("ok ") else out
+            if m != impl:
+                ctx.disagree("molli combine (molli_main): product differs from the model's iterated join", {"tag": dict(tag, product=name), "request": line[:1200]},
+                             impl[:1200], out[:1200])
+        B.add(req, cb_)
+        ctx.count("main.products")
+    if sample:
+        ctx.sample({"op": "molli combine", "argv": argv[2:], "cores": [c["name"] for c in cores], "attachment_indices_per_core": per_core_aps,
+                    "products": len(products)})
+
+
+# ------------------------------------------------------------------------------------------
 def gen_args(rng, pose):
     return {
         "pose": pose,
@@ -492,9 +659,11 @@ def run(ctx):
     ctx.rule = ("join: pairs of random 3-D fragments (1–7 atoms + attachment point, tree or one ring, atom order permuted so the attachment "
                 "point sits at any index, attached to any atom, bond types Single/Double/Aromatic/Triple, charge −2…2, mult 1…3) in random poses "
                 "on a 1/8 Å grid; requested length ∈ {None, 0.75, 1, 1.5, 2.25, 3}; optimize_rotation on/off; charge override ∈ {None, 0, 1, −2}; "
-                "mult override ∈ {None, 0, 1, 2, 3}; attachment vectors in general position, exactly parallel, exactly antiparallel and tilted off those by 1e-2…1e-7 rad; every call "
+                "mult override ∈ {None, 0, 1, 2, 3}; attachment vectors in general position, exactly parallel, exactly antiparallel (also with A's vector exactly along each of ±x, ±y, ±z) and tilted off those by 1e-2…1e-7 rad; every call "
                 "made twice under different global numpy RNG states. combine: cores with 1–3 attachment points, attachment indices in ascending "
-                "order (as `core.attachment_points`) and in every other order (as with `-a` labels), through the real `_ml_assemble`. "
+                "order (as `core.attachment_points`) and in every other order (as with `-a` labels), through the real `_ml_assemble`; the whole command `molli_main` on core libraries of 2–3 cores with "
+                "DIFFERENT attachment layouts × 2–3 substituents, every -m mode (same, permutns, combns, combns_repl) × attachment points found by type, by one "
+                "shared -a label, by several -a labels in any order: every product of the output library vs the reference and the model. "
                 "Non-trivial: a fragment with more than one remaining atom (join) / at least two attachment points (combine); distinct by input.")
     ctx.assumptions += [
         "A-fp: float64 evaluation of join's rotation/translation is within 1e-9 of exact arithmetic on the generated inputs (1e-7 in the antiparallel branch)",
@@ -521,7 +690,16 @@ def run(ctx):
     njoin = 250 if q else 15000
     for i in range(njoin):
         ctx.check_deadline()
-        pose = rng.weighted([("general", 6), ("parallel", 2), ("antiparallel", 2), ("near-parallel", 2), ("near-antiparallel", 2)])
+        pose = rng.weighted([("general", 6), ("parallel", 2), ("antiparallel", 2), ("near-parallel", 2), ("near-antiparallel", 2),
+                             ("axis-parallel", 1), ("axis-antiparallel", 1)])
+        if i < 12:      # every run: A's attachment vector exactly along each of ±x, ±y, ±z, B's exactly parallel / antiparallel to it
+            pose = "axis-parallel" if i % 2 == 0 else "axis-antiparallel"
+        if pose.startswith("axis"):
+            ax = AXES[(i // 2) % 6] if i < 12 else rng.choice(AXES)
+            fa = gen_fragment(rng, f"A{i}x", parallel_to=(ax, 1))
+            fb = gen_fragment(rng, f"B{i}x", parallel_to=(ax, -1 if pose.endswith("antiparallel") else 1))
+            join_case(ctx, B, ml, fa, fb, gen_args(rng, pose), variants, sample=False)
+            continue
         fa = gen_fragment(rng, f"A{i}x")
         if pose == "general":
             fb = gen_fragment(rng, f"B{i}x")
@@ -546,6 +724,16 @@ def run(ctx):
             while all(a < b for a, b in zip(aps, aps[1:])):
                 aps = rng.shuffle(list(aps))
         combine_case(ctx, B, ml, cb, core, aps, subs, variants, sample=(i < 2))
+        if len(B.items) > 200:
+            B.run(ctx)
+    B.run(ctx)
+    # the whole command on libraries: every mode × every way of naming the attachment points
+    forms = ["none", "shared-label", "labels-any-order"]
+    modes = ["permutns", "same", "combns", "combns_repl"]
+    nmain = 12 if q else 240
+    for i in range(nmain):
+        ctx.check_deadline()
+        main_case(ctx, B, ml, cb, variants, modes[i % 4], forms[(i // 4) % 3], i, sample=(i < 1))
         if len(B.items) > 200:
             B.run(ctx)
     B.run(ctx)
